@@ -154,6 +154,16 @@ Theorem C19_rotate_clears_every_access_token_of_the_request : forall clients s r
 Proof. exact rotate_step_clears_request. Qed.
 Print Assumptions C19_rotate_clears_every_access_token_of_the_request.
 
+(* one critical section per written table ([split_section], Model/Locks.v): the scan that the check runs on the event
+   sequence of every store method accepts only sequences in which no table is accessed, has its guard released, and is
+   accessed again - the shape of a test-and-set that is split over two critical sections (race-free, deadlock-free,
+   and not atomic: two callers can both pass the test) *)
+Theorem C19_no_access_release_access_of_one_table : forall G t m a a' l1 l2 l3 l4,
+  alookup t G = Some m ->
+  split_scan G (l1 ++ Acc t a :: l2 ++ Rel m :: l3 ++ Acc t a' :: l4) [] [] <> None.
+Proof. exact split_scan_sound. Qed.
+Print Assumptions C19_no_access_release_access_of_one_table.
+
 (* Stated, not proved (C19_atomicity_partial): "every execution of the store's methods under the
    event-level semantics of Model/Locks.v is equivalent to one in which each two-phase method runs
    without interruption" (conflict-serialisability of two-phase locking).  What is proved is the
